@@ -729,6 +729,40 @@ func (e *Engine) resolve(p Ptr, what string) *Cell {
 	return p.c.kids[i]
 }
 
+// viewAs resolves the "pointer to a struct is also a pointer to its first field"
+// ambiguity: a cell reached by pointer arithmetic with offset 0 is narrowed to the
+// leading field that has the shape of the static type it is accessed with.
+func (e *Engine) viewAs(c *Cell, want types.Type) *Cell {
+	for depth := 0; depth < 8; depth++ {
+		if want == nil || c == nil || !isAggType(c.typ) || len(c.kids) == 0 {
+			return c
+		}
+		if types.Identical(c.typ.Underlying(), want.Underlying()) {
+			return c
+		}
+		if isAggType(want) {
+			// another aggregate: only narrow if a leading field has that type
+			k := c.kids[0]
+			found := false
+			for d := 0; d < 8 && k != nil; d++ {
+				if types.Identical(k.typ.Underlying(), want.Underlying()) {
+					found = true
+					break
+				}
+				if len(k.kids) == 0 {
+					break
+				}
+				k = k.kids[0]
+			}
+			if !found {
+				return c
+			}
+		}
+		c = c.kids[0]
+	}
+	return c
+}
+
 func (e *Engine) loadPtr(p Ptr) Val {
 	if p.idx == nil || p.c == nil {
 		return e.load(e.resolve(p, "load"))
@@ -1350,6 +1384,9 @@ func (e *Engine) exec(fr *frame, in ssa.Instruction) {
 		if !ok {
 			e.unsupported("store through %T", e.get(fr, x.Addr))
 		}
+		if p.idx == nil && p.c != nil {
+			p = Ptr{c: e.viewAs(e.resolve(p, "store"), x.Val.Type())}
+		}
 		e.storePtr(p, e.get(fr, x.Val))
 	case *ssa.UnOp:
 		e.set(fr, x, e.unop(fr, x))
@@ -1366,6 +1403,7 @@ func (e *Engine) exec(fr *frame, in ssa.Instruction) {
 	case *ssa.FieldAddr:
 		p := e.get(fr, x.X).(Ptr)
 		c := e.resolve(p, "field")
+		c = e.viewAs(c, x.X.Type().Underlying().(*types.Pointer).Elem())
 		if x.Field >= len(c.kids) {
 			e.goPanic("invalid reinterpretation: field %d of %v viewed as %v", x.Field, c.typ, x.X.Type())
 		}
@@ -1532,6 +1570,15 @@ func (e *Engine) allocGuard(n *Term, elemSize int) {
 	if e.decide(neg) {
 		e.goPanic("runtime error: makeslice: len out of range")
 	}
+	// prefer a witness that a native replay can tell from honest use: an enormous size
+	huge := e.tf.Bin(OSlt, e.K(64, 1<<28), n)
+	if e.decide(huge) {
+		v := int64(0)
+		if e.model != nil {
+			v = int64(e.ev.Eval(n, e.model))
+		}
+		e.goPanic("alloc: allocation of %d elements not backed by input (limit %d)", v, lim)
+	}
 	big := e.tf.Bin(OSlt, e.K(64, uint64(lim)), n)
 	if e.decide(big) {
 		v := int64(0)
@@ -1618,6 +1665,9 @@ func (e *Engine) unop(fr *frame, x *ssa.UnOp) Val {
 		p, ok := v.(Ptr)
 		if !ok {
 			e.unsupported("load through %T", v)
+		}
+		if p.idx == nil && p.c != nil {
+			p = Ptr{c: e.viewAs(e.resolve(p, "load"), x.Type())}
 		}
 		val := e.loadPtr(p)
 		return e.checkView(val, x.Type())
